@@ -319,13 +319,28 @@ def Oracle.packet (o : Oracle) (p : Pkt) (evs : List ObsEv) (st : Option ObsStat
   let main := evs.filter (fun e => !isTimeout e)
   let sweep := evs.filter isTimeout
   if !ranksSorted (evs.map evRank) then viol o twin "order" "callbacks in an impossible order" else
-  match evs.find? (fun e => match e with | .exc _ => true | _ => false) with
-  | some (.exc n) => viol o twin "exception" s!"{n} left process_packet"
-  | _ =>
   -- announce
   let live := o.conns.find? (·.has p.v6 src dst)
   let isSyn := p.syn && !p.ackf
   let create := live.isNone && (isSyn || (o.cfg.attach && p.payload.isSome))
+  -- no new-stream callback installed: the packet that would start a connection makes `callback_not_set` leave the call,
+  -- after the stream has been stored; nothing else happens (the packet is not processed, no sweep)
+  if !o.cfg.cbSet && create then
+    if evs != [ObsEv.exc "callback_not_set"] then
+      viol o twin "exception" "no new-stream callback is installed and the packet starts a connection: callback_not_set expected, alone"
+    else match st with
+      | none => viol o twin "find" "the stream stored before callback_not_set was thrown is not found"
+      | some s =>
+        if s.sid != ⟨p.v6, p.src, p.sport, p.dst, p.dport⟩ then viol o twin "find" "find_stream returns another connection" else
+        ({ o with conns := { v6 := p.v6, cl := src, sv := dst, lastSeen := p.ts, c2s := { specified := false, akSpec := false },
+                             s2c := { specified := false, akSpec := false } } ::
+                           o.conns.filter (fun c => !c.has p.v6 src dst) }, .ok)
+  else
+  match evs.find? (fun e => match e with | .exc _ => true | _ => false) with
+  | some (.exc n) => viol o twin "exception" s!"{n} left process_packet"
+  | _ =>
+  if !o.cfg.cbSet && main.any (fun e => match e with | .term _ _ _ _ _ => false | _ => true) then
+    viol o twin "exception" "a stream callback was made although no new-stream callback (which installs them) is set" else
   let news := main.filter (fun e => match e with | .new _ _ => true | _ => false)
   let expectNew := if create then [ObsEv.new ⟨p.v6, p.src, p.sport, p.dst, p.dport⟩ (!p.syn)] else []
   if news != expectNew then
@@ -361,12 +376,12 @@ def Oracle.packet (o : Oracle) (p : Pkt) (evs : List ObsEv) (st : Option ObsStat
     if misrouted then viol o twin "route" "callback for another connection or direction" else
     let decl := lookupDecl o.decls p.v6 src dst
     let d := if toServer then c.c2s else c.s2c
-    let ignored := if toServer then o.cfg.ignC else o.cfg.ignS
+    let ignored := o.cfg.cbSet && (if toServer then o.cfg.ignC else o.cfg.ignS)
     let d' := (d.advance p decl).advanceAck p
     let dataEvs := rest.filterMap (fun e => match e with | .data _ _ l h => some (l, h) | _ => none)
     if ignored && !(dataEvs.isEmpty && !rest.any (fun e => match e with | .ooo _ _ => true | _ => false)) then
       viol o twin "ignore" "data / out-of-order callback for a direction the application asked to ignore" else
-    match (if ignored then none else checkDeliver o.cfg.acl d d' decl dataEvs) with
+    match (if ignored || !o.cfg.cbSet then none else checkDeliver o.cfg.acl d d' decl dataEvs) with
     | some msg => viol o twin "deliver" msg
     | none =>
     let d'' : RDir := match d'.owed decl with
@@ -376,7 +391,7 @@ def Oracle.packet (o : Oracle) (p : Pkt) (evs : List ObsEv) (st : Option ObsStat
     -- forget
     let finished := (c'.c2s.fin && c'.s2c.fin) || c'.c2s.rst || c'.s2c.rst
     let closedEvs := rest.filter (fun e => match e with | .closed _ => true | _ => false)
-    if closedEvs != (if finished then [ObsEv.closed sid] else []) then
+    if closedEvs != (if finished && o.cfg.cbSet then [ObsEv.closed sid] else []) then
       viol o twin "forget" (if finished then "connection finished (FIN both ways or RST) but not reported closed"
                             else "closed callback for a connection that is not finished") else
     -- limits
@@ -408,7 +423,7 @@ def Oracle.packet (o : Oracle) (p : Pkt) (evs : List ObsEv) (st : Option ObsStat
           if s.real != s.cb + s.sb then viol o twin "limits" "byte counter differs from the bytes held" else
           if s.cak.ivn + s.sak.ivn > o.cfg.maxSacked then
             viol o twin "sacklimit" s!"live connection holds {s.cak.ivn + s.sak.ivn} SACKed intervals, over the limit" else
-          match ackVerdict o.cfg.ackC c'.c2s s.cak, ackVerdict o.cfg.ackS c'.s2c s.sak with
+          match ackVerdict (o.cfg.ackC && o.cfg.cbSet) c'.c2s s.cak, ackVerdict (o.cfg.ackS && o.cfg.cbSet) c'.s2c s.sak with
           | some m, _ => viol o twin "acktrack" ("client flow: " ++ m)
           | none, some m => viol o twin "acktrack" ("server flow: " ++ m)
           | none, none =>
